@@ -19,8 +19,9 @@ BOUND = {'quick': 'sort: n <= 3 rows, buffersize 1..n, cache on/off, prior passe
                   'every item x {always, first pass only} x 1-3 attempts; 29 operator forms x buffersize {1, 4} / config default 1 '
                   'x abandonment point; fromdicts(generator): n <= 3 dicts, 1-2 iterators, all release orders, failure at '
                   'every dict',
-         'thorough': 'sort: n <= 5 with 1-2 iterators exhaustively, n <= 3 with 3 iterators, prior passes 0-2, reverse; '
-                     'fromdicts: n <= 4, 3 iterators for n <= 2'}
+         'thorough': 'sort: n <= 4 with 1-2 iterators exhaustively (n = 5: every second 2-iterator history), n <= 3 with 3 '
+                     'iterators (1 in 4 / 4 / 10 / 25 for n = 0..3), prior passes 0-2, reverse for n <= 3; fromdicts: n <= 4 (n = 4 with 2 iterators and '
+                     'all 3-iterator histories: 1 in 3), 3 iterators for n <= 2'}
 
 
 class Boom(Exception):
@@ -226,8 +227,8 @@ def _sort_inputs(tier, seed):
     for n in range(0, 6 if th else 4):
         for b in range(1, max(n, 1) + 1):
             for cache in (True, False):
-                for reverse in ((False, True) if th else (False,)):
-                    for prior in ((0, 1, 2) if th else (0, 1)):
+                for reverse in ((False, True) if th and n <= 3 else (False,)):
+                    for prior in ((0, 1, 2) if th and n <= 4 else (0, 1)):
                         for k in (1, 2, 3):
                             if k == 3 and not (th and n <= 3):
                                 continue
@@ -240,7 +241,9 @@ def _sort_inputs(tier, seed):
                                         for drain in (False, True):
                                             if not th and n == 3 and k == 2 and rnd.random() > 1 / 4.:
                                                 continue
-                                            if th and k == 3 and rnd.random() > 1 / 4.:
+                                            if th and k == 3 and rnd.random() > (0.25, 0.25, 0.1, 0.04)[n]:
+                                                continue
+                                            if th and n == 5 and k == 2 and rnd.random() > 1 / 2.:
                                                 continue
                                             yield (n, b, cache, reverse, prior, pts, mode, order, drain)
 
@@ -445,6 +448,8 @@ def _dict_inputs(tier, seed):
                             for order in orders(k):
                                 for drain in (False, True):
                                     if not th and n == 3 and k == 2 and rnd.random() > 1 / 4.:
+                                        continue
+                                    if th and ((n == 4 and k == 2) or k == 3) and rnd.random() > 1 / 3.:
                                         continue
                                     yield (n, header, prior, pts, mode, order, drain)
 
